@@ -1,8 +1,8 @@
 import PbVerif.Model.FastInit
 /-
-(a) `needsInitCheck`: specification (`Reaches`), what the code as it is guarantees (a `true` is always
-right; exact on acyclic schemas; never out of fuel), and the exactness of the repaired walk on ALL
-schemas.  Core-only.
+(a) `needsInitCheck`: specification (`Reaches`) and what the OLD code (before /repo 78c9443; model `needs`)
+guaranteed (a `true` is always right; exact on acyclic schemas; never out of fuel) — historical; the walk of the
+current code is in Lemmas/FastInitFixed.lean.  Core-only.
 -/
 namespace FastInit
 open Pb
@@ -161,7 +161,7 @@ theorem needs_true_sound (S : Schema) (xr : Nat → Bool) : ∀ (fuel : Nat) (c 
               exact .step ht hrt
             exact ⟨a.set i _ (fun e => hr (by cases e; rfl)), hr⟩
 
-/-! ### on acyclic schemas the code as it is is exact -/
+/-! ### on acyclic schemas the old code was exact -/
 
 /-- the in-progress markers before and after a call are the same -/
 def BusyFrame (c c' : Cache) : Prop := ∀ j, c' j = some .busy ↔ c j = some .busy
